@@ -1,6 +1,6 @@
 """C11 - long/short sizing respects gross leverage and the sign of every weight (DESIGN C11: S1..S3)."""
 from .. import terms as T
-from ..lib import summarise, heap_writes, V, A, normal, raising, cond_str, no_inline, writers_of_attr
+from ..lib import at_construction, summarise, heap_writes, V, A, normal, raising, cond_str, no_inline, writers_of_attr
 from ..symex import Valuation, default_policy
 from ..terms import fmt, ZERO, num
 from .sizers import sizing_paths, EQUITY, call_is, loop_asset_weight, is_empty_weights_path, require_fresh_target, is_nan_test_of
@@ -195,4 +195,4 @@ def check(ctx):
     ctx.sub(c06.accessors)             # ... and "no bar at or before dt" is answered NaN by the data source (not the last bar's price)
     ctx.sub(c06.handler)               # ... which the data handler hands to the sizer unchanged
     ws = [w for w in writers_of_attr(ctx.M, 'gross_leverage', owner=CN) if w.fn.cls is not None and w.fn.cls.name == CN]
-    ctx.require(all(w.fn.name == '__init__' for w in ws) and ws, 'C11.S3', 'the leverage is set only by the constructor', ws[0].where if ws else None, key='C11.S3|writer')
+    ctx.require(all(at_construction(ctx.M, w, 'gross_leverage') for w in ws) and ws, 'C11.S3', 'the leverage is set only by the constructor', ws[0].where if ws else None, key='C11.S3|writer')
